@@ -220,7 +220,6 @@ func (a *Real64) Reset() {
 // Set the state to b. This includes the value and all derivatives.
 func (a *Real64) Set(b ConstScalar) {
   a.Value = b.GetFloat64()
-  a.Order = b.GetOrder()
   a.Alloc(b.GetN(), b.GetOrder())
   if a.Order >= 1 {
     for i := 0; i < b.GetN(); i++ {
@@ -237,7 +236,6 @@ func (a *Real64) Set(b ConstScalar) {
 }
 func (a *Real64) SET(b *Real64) {
   a.Value = b.GetFloat64()
-  a.Order = b.GetOrder()
   a.Alloc(b.GetN(), b.GetOrder())
   if a.Order >= 1 {
     for i := 0; i < b.GetN(); i++ {
